@@ -132,10 +132,12 @@ def skeleton(eng, name, P):
     if name == 'B9':
         # one cacheable function with two (possibly failing, caught) build_file calls whose outputs are siblings or cousins
         # below a common directory, followed by a look at that directory or its parent
-        t1 = pick(eng, 't1', ['o/d/g', 'o/d/p/x'])
-        t2 = pick(eng, 't2', ['o/d/h', 'o/d/q/y'])
-        m = ['ok', 'raise_before', 'raise_after']
-        return [[('SB', 's', {}, [('BF', t1, bf_opts(eng, '0', m, catch=True), []), ('BF', t2, bf_opts(eng, '1', m, catch=True), []),
+        t1 = pick(eng, 't1', P.get('t1s', ['o/d/g', 'o/d/p/x']))
+        t2 = pick(eng, 't2', P.get('t2s', ['o/d/h', 'o/d/q/y']))
+        m = P.get('bf_modes', ['ok', 'raise_before', 'raise_after'])
+        cmp = P.get('cmp')          # e.g. ['METADATA', 'HASH']: the comparison mode the outputs are recorded under
+        return [[('SB', 's', {}, [('BF', t1, bf_opts(eng, '0', m, catch=True, cmp=cmp), []),
+                                  ('BF', t2, bf_opts(eng, '1', m, catch=True, cmp=cmp), []),
                                   q_hole(eng, '0', kinds, [P1, TS])])]]
     if name == 'B10':
         # as B9, but the second build_file call is made by the function of the first (cousin directories below o/d)
